@@ -179,7 +179,7 @@ func c20Input(c *mon.Ctx, idx, k int) (entry string, s string, origin string) {
 			s = c20Gen.Mutate(r, s, 1+r.Intn(2))
 		}
 		if r.Intn(6) == 0 {
-			s += []string{" ", "x", ".", "\"", "1", "\xff"}[r.Intn(6)]
+			s += []string{" ", "x", ".", "\"", "1", "\xff", " \xff", "x \xfe", " == \xff", "\n\n\xc0", " \u200f", "\ufeff"}[r.Intn(12)]
 		}
 		return entry, s, "rule-derivation"
 	}
